@@ -81,9 +81,10 @@ func xobjFile() pdfw.File {
 		{Num: 2, Stream: s(c1)},
 		{Num: 3, Stream: &pdfw.Stream{Dict: "/Type /XObject /Subtype /Form /BBox [0 0 200 200] /Matrix [1 0 0 1 0 0] /Resources << /Font << /F1 1 0 R >> /XObject << /Fm2 4 0 R >> >>", Data: []byte(f1)}},
 		{Num: 4, Stream: &pdfw.Stream{Dict: "/Type /XObject /Subtype /Form /BBox [0 0 100 100] /Resources << /Font << /F1 1 0 R >> >>", Data: []byte(f2)}},
-		{Num: 5, Body: "<< /Type /Page /Parent 6 0 R /MediaBox [0 0 612 792] /Resources << /Font << /F1 1 0 R >> /XObject << /Fm1 3 0 R >> >> /Contents 2 0 R >>"},
+		{Num: 5, Body: "<< /Type /Page /Parent 6 0 R /MediaBox [0 0 612 792] /Resources << /Font << /F1 1 0 R >> /XObject << /Fm1 3 0 R /Im1 8 0 R >> >> /Contents 2 0 R >>"},
 		{Num: 6, Body: "<< /Type /Pages /Kids [5 0 R] /Count 1 >>"},
 		{Num: 7, Body: "<< /Type /Catalog /Pages 6 0 R >>"},
+		{Num: 8, Stream: &pdfw.Stream{Dict: "/Type /XObject /Subtype /Image /Width 2 /Height 2 /ColorSpace /DeviceGray /BitsPerComponent 8 /Filter /FlateDecode", Data: pdfw.Zlib([]byte{0, 85, 170, 255})}},
 	}
 	return pdfw.File{Root: 7, Revs: []pdfw.Revision{{Objs: objs, XRef: "table"}}}
 }
